@@ -193,10 +193,23 @@ def gen_spec(rng, cfgi, idx):
             "leftover": rng.random() < 0.3}
 
 
+_REUSE = [0, None]
+
+
 def write_channel(spec):
     """run the real writer; returns the list of top-level directories in reader order"""
     import digital_rf
-    root = common.scratch_dir()
+    # every other channel is recorded under the SAME directory names as the one before it (removed, then written
+    # again): the same file paths with other contents -- whatever a reader class remembers about a path across
+    # reader objects is then wrong
+    _REUSE[0] += 1
+    if _REUSE[0] % 2 == 0 and _REUSE[1]:
+        root = _REUSE[1]
+        shutil.rmtree(root, ignore_errors=True)
+        os.makedirs(root)
+    else:
+        root = common.scratch_dir()
+        _REUSE[1] = root
     tops = []
     tag = 1
     for di, segs in enumerate(spec["dirs"]):
